@@ -66,8 +66,10 @@ for line in sys.stdin:
             d.target = Target(j)
             d.loop = InlineLoop()
             tok.dependents.add(d)
+            _verif.emit("sched.dep.add", job=j, origin="CounterToken", proc=me)
             deps[j] = d
             d.check()
+            _verif.emit("sched.dep.check", job=j, origin="CounterToken", status=d.currentstatus.name, proc=me)
             reply(ok=True, status=d.currentstatus.name)
         elif op == "acquire":
             # as aio_start: the job's run lock is held from before the tokens are taken until the pid file exists
